@@ -146,7 +146,7 @@ func (p *c06) Gen(seed uint64, i int, tier string) (any, bool) {
 					op.Addrs = append(op.Addrs, op.Addrs[0]) // the same address twice
 				}
 			}
-			if r.Chance(1, 6) && (op.Kind == "set" || op.Kind == "ignoreinvalid" || op.Kind == "add") {
+			if r.Chance(1, 6) && (op.Kind == "set" || op.Kind == "ignoreinvalid" || op.Kind == "add" || op.Kind == "fromstring") {
 				op.Junk = []string{sim.Pick(r, []string{"not an address", "a@", "@b.example", "<>", "x y z", "a@b@c", ""})}
 			}
 			msg.Ops = append(msg.Ops, op)
@@ -346,6 +346,16 @@ func (p *c06) Exec(t *testing.T, scAny any) Outcome {
 								w := a
 								w.Name = ""
 								want = append(want, w)
+							}
+							if len(op.Junk) > 0 {
+								// one field of the list is not an address: the call fails and leaves
+								// the list as it was
+								at := len(bs) / 2
+								bs = append(append(append([]string(nil), bs[:at]...), "junk "+op.Junk[0]), bs[at:]...)
+								if err = f.fromStr(strings.Join(bs, ", ")); err == nil {
+									infra = fmt.Sprintf("%sFromString accepted %q", op.Field, strings.Join(bs, ", "))
+								}
+								continue
 							}
 							if err = f.fromStr(strings.Join(bs, ", ")); err == nil {
 								*lst = want
